@@ -26,11 +26,11 @@ def gen_cases(ctx, tag="MC_VE"):
         shapes = list(instances.SHAPES)
         per = 4
     else:
-        shapes = ["single", "pair", "two_isolated", "chain3", "collider3", "pair_iso", "diamond", "collider_desc",
-                  "two_comp", "family3", "mshape"]
+        shapes = ["single", "pair", "two_isolated", "chain3", "fork3", "collider3", "pair_iso", "diamond", "collider_desc",
+                  "two_comp", "family3", "fork4", "mshape"]
         per = 2
     insts = instances.bn_instances(ctx.seed, shapes, per)
-    add_virts(insts, rng, per=2 if ctx.thorough else 1)
+    add_virts(insts, rng, per=2)
     f = os.path.join(ctx.work, "inst_c01.json")
     with open(f, "w") as fh:
         json.dump(insts, fh)
@@ -197,8 +197,7 @@ def replay_gen(payload):
         if payload.get("force"):
             configs = [tuple(payload["force"])]
         for kind, order, joint in configs:
-            # virtual evidence re-binds the engine (recorded C16 finding), so use a fresh engine there
-            eng = VariableElimination(model) if virt else shared
+            eng = shared      # one engine per instance for ALL queries (a stale cache / re-bound model must not change answers)
             qv = [conc.vn[v] for v in rng.sample(Q, len(Q))]
             kw = dict(variables=qv, evidence=conc.ev(ev) or None, elimination_order=order, joint=joint, show_progress=False)
             if virt:
